@@ -194,6 +194,16 @@ def execute(case, prefix):
             t.start()
         for t in ts:
             t.join()
+        # snapshot for the rate-limit / callback oracles, then one poll of the connection state (what the poll thread
+        # does every pollinterval): the visible state must be consistent afterwards (self-healing)
+        out['attempts'] = list(world.attempts)
+        out['nconn'] = world.nconn
+        out['callbacks_before_poll'] = out['callbacks']
+        world.window = False
+        try:
+            io.read_is_connected()
+        except Exception:       # noqa
+            pass
         out['is_connected'] = io.is_connected
         out['conn_is_none'] = io._conn is None
     x = sched.run(body)
@@ -273,9 +283,9 @@ def judge(case, sched, x, world, out, net):
             and not out.get('conn_is_none'):
         pass    # a close not yet noticed by any call (e.g. close-after on the last command) is legitimately invisible
     if out.get('conn_is_none') and out.get('is_connected'):
-        viol.append(('is_connected-true-without-connection', 'is_connected is True but the connection object is gone'))
+        viol.append(('is_connected-true-without-connection-after-a-poll', 'after a further poll of is_connected it is True but the connection object is gone: no reconnect will ever be tried'))
     # reconnect rate limit: every attempt after the first is caller-triggered
-    att = world.attempts[1:]
+    att = out.get('attempts', world.attempts)[1:]
     prev = None
     for t in att:
         if prev is not None and t - prev < POLLINTERVAL - 1e-9:
@@ -283,10 +293,11 @@ def judge(case, sched, x, world, out, net):
             break
         prev = t
     # reconnect callbacks: exactly once per successful reconnect
-    reconnects = world.nconn - 1
-    if out['callbacks'] != reconnects:
-        viol.append(('reconnect-callbacks-not-run-once' if out['callbacks'] < reconnects else 'reconnect-callbacks-run-too-often',
-                     f'{reconnects} successful reconnect(s) but the callback ran {out["callbacks"]} time(s); events {world.events[-6:]}'))
+    reconnects = out.get('nconn', world.nconn) - 1
+    ncb = out.get('callbacks_before_poll', out['callbacks'])
+    if ncb != reconnects:
+        viol.append(('reconnect-callbacks-not-run-once' if ncb < reconnects else 'reconnect-callbacks-run-too-often',
+                     f'{reconnects} successful reconnect(s) but the callback ran {ncb} time(s); events {world.events[-6:]}'))
     return viol
 
 
